@@ -83,6 +83,8 @@ class Spec:
     vacations: list[str] = field(default_factory=list)     # ["2025-01-08", "2025-01-09 - 2025-01-11"]
     shifts: dict[str, list[str]] = field(default_factory=dict)   # shift id -> workinghours lines
     scenarios: Optional[str] = None                        # raw scenario block text inside project {...}
+    scen_names: list[str] = field(default_factory=lambda: ["plan"])   # in declaration (= index) order
+    scen_parent: dict[str, Optional[str]] = field(default_factory=dict)
     reports: list[str] = field(default_factory=list)       # raw report definitions
     extra_header: str = ""
     tz: str = "UTC"
@@ -241,26 +243,50 @@ def render(spec: Spec, vals: Optional[dict] = None, defaults: Optional[dict] = N
     return "\n".join(out) + "\n"
 
 
-def inject(spec: Spec, project: Any, vals: dict, sc_names: Optional[list[str]] = None) -> None:
-    """write the (symbolic) parameter values into the attribute tables of the parsed project"""
+def inject(spec: Spec, project: Any, vals: dict, markers: dict, scenarios: Optional[list[int]] = None) -> None:
+    """Substitute the (symbolic) parameter values for their MARKERS in the parsed model.
+
+    The project text is rendered with a distinct marker value per parameter; wherever the parser (with its own
+    inheritance / scenario / override logic) left a marker in a task's effort, priority, start or end - in any
+    scenario - the parameter's value is written instead.  The harness thus never decides where a value belongs."""
+    from datetime import timedelta as _td
+
     from .inttime import IntTime
 
+    base = spec.start
+    n_sc = len(list(project.scenarios))
+    eff_mark = {}
+    prio_mark = {}
+    date_mark = {}
     for t in spec.tasks:
-        task = project.tasks[spec.full_id(t)]
-        if isinstance(t.effort, P):
-            task[("effort", 0)] = spec.eval_effort(t.effort, vals) / 3600.0
+        for x in (t.effort, *t.scen_effort.values()):
+            if isinstance(x, P):
+                eff_mark[markers[x.name] * spec.effort_unit] = x.name
         if isinstance(t.prio, P):
-            task[("priority", 0)] = vals[t.prio.name]
-        if isinstance(t.start, P):
-            task[("start", 0)] = IntTime(vals[t.start.name] * spec.time_unit)
-        if isinstance(t.end, P):
-            task[("end", 0)] = IntTime(vals[t.end.name] * spec.time_unit)
-        for sid, e in t.scen_effort.items():
-            if isinstance(e, P) and sc_names:
-                task[("effort", sc_names.index(sid))] = spec.eval_effort(e, vals) / 3600.0
-        for sid, s in t.scen_start.items():
-            if isinstance(s, P) and sc_names:
-                task[("start", sc_names.index(sid))] = IntTime(vals[s.name] * spec.time_unit)
+            prio_mark[markers[t.prio.name]] = t.prio.name
+        for x in (t.start, t.end, *t.scen_start.values()):
+            if isinstance(x, P):
+                date_mark[base + _td(seconds=markers[x.name] * spec.time_unit)] = x.name
+    for task in project.tasks:
+        for k in (scenarios if scenarios is not None else range(n_sc)):
+            e = task.get("effort", k)
+            if e and not isinstance(e, bool) and type(e) in (int, float):
+                name = eff_mark.get(round(e * 3600))
+                if name is not None:
+                    task[("effort", k)] = vals[name] * spec.effort_unit / 3600.0
+            p_ = task.get("priority", k)
+            if type(p_) is int and p_ in prio_mark and task.leaf():
+                task[("priority", k)] = vals[prio_mark[p_]]
+            for attr in ("start", "end"):
+                d = task.get(attr, k)
+                if d is None:
+                    continue
+                if isinstance(d, IntTime):
+                    key = base + _td(seconds=d.s) if type(d.s) is int else None
+                else:
+                    key = d
+                if key is not None and key in date_mark:
+                    task[(attr, k)] = IntTime(vals[date_mark[key]] * spec.time_unit)
 
 
 GAP_SECONDS = {"min": 60, "h": 3600, "d": 86400, "w": 604800}
